@@ -1012,3 +1012,134 @@ Lemma ex_history_ok :
   carried_proxies infoProxy (run_pops s0 ex_history) = [mkPData [112;120] [108;111;99;97;108;104;111;115;116;58;48] []] /\
   carried_proxies infoHello (run_pops s0 (ex_history ++ [PTask PClose])) = [].
 Proof. vm_compute. repeat split; reflexivity. Qed.
+
+(* ---- part 5: every producer of a synchronisation message -------------------------------------- *)
+(* the table: each writeDeviceInfo call site writes the kind its consumer reads *)
+Lemma producers_paired : forallb paired producers = true.
+Proof. vm_compute. reflexivity. Qed.
+
+(* the one producer whose kind is not fixed at the call site: SvResync = kind byte + body of THAT kind *)
+Lemma agree_resync r : agree (read_resync flat_ops r) (read_resync stream_ops r).
+Proof. unfold read_resync. apply agree_rbind; [apply agree_u8|]. intros t. apply read_info_agree. Qed.
+Theorem resync_roundtrip z c r : wf z c = true ->
+  reads_back (read_resync flat_ops r) (read_resync stream_ops r) (write_resync z c) (absorb z c r, carried_proxies z c).
+Proof.
+  intros H. apply reads_back_intro; [apply agree_resync|]. unfold read_resync, write_resync.
+  eapply rt_bind; [apply rt_u8|apply devinfo_roundtrip_flat; exact H].
+  unfold wf, is_kind in H. apply andb_true_iff in H. destruct H as [H _]. lia.
+Qed.
+
+(* Scripts *)
+Definition wf_entry (e : entry) : bool :=
+  match e with
+  | ETime o => wf_order o && (match o with OTaskDuration _ _ | OTaskKill _ | OTaskWork _ => true | _ => false end)
+  | ERefresh m => wf_machine m
+  | _ => true
+  end.
+
+Lemma wf_refresh_iff c :
+  wf infoRefresh c = true <->
+  wf_machine (s_dev c) = true /\ wf_settings c = true /\ s_client c = true /\ wf_proxy_opt (s_proxy c) = true.
+Proof.
+  unfold wf. change (is_kind infoRefresh) with true. change (infoRefresh =? infoProxy) with false.
+  change (has_device infoRefresh) with true. change (carries_proxy infoRefresh) with true.
+  change (infoRefresh =? infoMigrate) with false. cbn [andb]. rewrite andb_true_r. rewrite !andb_true_iff. tauto.
+Qed.
+
+Lemma effect_frame srv c o :
+  s_dev (effect srv c o) = s_dev c /\ s_client (effect srv c o) = s_client c /\ s_proxy (effect srv c o) = s_proxy c /\
+  s_id (effect srv c o) = s_id c /\ s_keys (effect srv c o) = s_keys c.
+Proof. destruct o as [t j|k|[w|]|d j|k|w]; repeat split; reflexivity. Qed.
+
+(* one entry keeps the client a well-formed refresh sender and asks for kind 0 (none), refresh or sync *)
+Lemma run_entry_inv c e c' k :
+  wf infoRefresh c = true -> wf_entry e = true -> run_entry c e = Some (c', k) ->
+  wf infoRefresh c' = true /\ (k = 0 \/ k = infoRefresh \/ k = infoSync).
+Proof.
+  intros Hc He Hr. apply wf_refresh_iff in Hc. destruct Hc as (Hm & Hs & Hcl & Hp).
+  destruct e as [o|m| | |]; cbn [run_entry wf_entry] in *.
+  - apply andb_true_iff in He. destruct He as [Ho _].
+    destruct (server_set c o) as [[s1 pkt]| |] eqn:Eset; try discriminate.
+    rewrite (client_handles_order c c o s1 pkt Hs Ho Eset) in Hr. injection Hr as <- <-.
+    destruct (effect_frame c c o) as (E1 & E2 & E3 & _). split; [|auto].
+    apply wf_refresh_iff. rewrite E1, E2, E3. repeat split; try assumption. apply wf_effect; assumption.
+  - injection Hr as <- <-. split; [|auto]. apply wf_refresh_iff. repeat split; assumption.
+  - injection Hr as <- <-. split; [|auto]. apply wf_refresh_iff. repeat split; assumption.
+  - discriminate.
+  - injection Hr as <- <-. split; [|auto]. apply wf_refresh_iff. repeat split; assumption.
+Qed.
+
+Lemma run_script_inv stop es : forall c z c' z',
+  wf infoRefresh c = true -> forallb wf_entry es = true -> (z = 0 \/ z = infoRefresh \/ z = infoSync) ->
+  run_script stop c z es = (c', z') ->
+  wf infoRefresh c' = true /\ (z' = 0 \/ z' = infoRefresh \/ z' = infoSync).
+Proof.
+  induction es as [|e es IH]; intros c z c' z' Hc Hes Hz Hr; cbn [run_script] in Hr.
+  - injection Hr as <- <-. split; assumption.
+  - cbn [forallb] in Hes. apply andb_true_iff in Hes. destruct Hes as [He Hes].
+    destruct (run_entry c e) as [[c1 k]|] eqn:Ee.
+    + destruct (run_entry_inv c e c1 k Hc He Ee) as (Hc1 & Hk).
+      apply (IH c1 (if 0 <? k then k else z) c' z' Hc1 Hes); [|exact Hr].
+      destruct (0 <? k); [exact Hk | exact Hz].
+    + destruct stop; [injection Hr as <- <-; split; assumption | apply (IH c z c' z' Hc Hes Hz Hr)].
+Qed.
+
+(* a Script with at least one successful synchronising entry: the SvResync notice announces the kind z
+   of the LAST such entry and carries the body of exactly that kind; the server absorbs it: its view of
+   the four settings is the client's (as the wire carries them), and after a refresh also the device *)
+Theorem script_resync_server_view stop srv cli es cli' z :
+  wf infoRefresh cli = true -> forallb wf_entry es = true ->
+  run_script stop cli 0 es = (cli', z) -> 0 < z ->
+  script_exchange stop srv cli es = Ok (Some (write_resync z cli'), cli', absorb z cli' srv) /\
+  (z = infoRefresh \/ z = infoSync) /\
+  (let srv' := absorb z cli' srv in
+   s_jitter srv' = s_jitter cli' /\ s_sleep srv' = s_sleep cli' /\
+   s_kill srv' = norm_kill (s_kill cli') /\ s_work srv' = norm_work_opt (s_work cli') /\
+   (z = infoRefresh -> s_dev srv' = s_dev cli')).
+Proof.
+  intros Hc Hes Hr Hz. destruct (run_script_inv stop es cli 0 cli' z Hc Hes (or_introl eq_refl) Hr) as (Hc' & Hk).
+  assert (Hz' : z = infoRefresh \/ z = infoSync) by (destruct Hk as [->|Hk]; [lia | exact Hk]).
+  assert (Hw : wf z cli' = true).
+  { destruct Hz' as [->| ->]; [exact Hc'|]. apply wf_sync. apply wf_refresh_iff in Hc'. tauto. }
+  split; [|split; [exact Hz'|]].
+  - unfold script_exchange. rewrite Hr. replace (0 <? z) with true by lia.
+    destruct (resync_roundtrip z cli' srv Hw) as (Hflat & _). specialize (Hflat []). rewrite app_nil_r in Hflat.
+    rewrite Hflat. reflexivity.
+  - cbv zeta. destruct (absorbed_settings z cli' srv) as (A & B & C & D).
+    { destruct Hz' as [->| ->]; discriminate. }
+    repeat split; try assumption. intros ->. reflexivity.
+Qed.
+
+(* the same for a single task sent directly: the handler's echo is absorbed by handleInfoResult *)
+Theorem direct_sync_server_view srv cli e cli' k :
+  wf infoRefresh cli = true -> wf_entry e = true -> run_entry cli e = Some (cli', k) -> 0 < k ->
+  direct_exchange srv cli e = Ok (Some (write_info k cli'), cli', absorb k cli' srv) /\
+  s_jitter (absorb k cli' srv) = s_jitter cli' /\ s_sleep (absorb k cli' srv) = s_sleep cli' /\
+  (k = infoRefresh -> s_dev (absorb k cli' srv) = s_dev cli').
+Proof.
+  intros Hc He Hr Hk. destruct (run_entry_inv cli e cli' k Hc He Hr) as (Hc' & Hkk).
+  assert (Hz' : k = infoRefresh \/ k = infoSync) by (destruct Hkk as [->|Hkk]; [lia | exact Hkk]).
+  assert (Hw : wf k cli' = true).
+  { destruct Hz' as [->| ->]; [exact Hc'|]. apply wf_sync. apply wf_refresh_iff in Hc'. tauto. }
+  split.
+  - unfold direct_exchange. rewrite Hr. replace (0 <? k) with true by lia.
+    pose proof (devinfo_roundtrip_flat k cli' srv Hw []) as Hflat. rewrite app_nil_r in Hflat. rewrite Hflat. reflexivity.
+  - destruct (absorbed_settings k cli' srv) as (A & B & _).
+    { destruct Hz' as [->| ->]; discriminate. }
+    repeat split; try assumption. intros ->. reflexivity.
+Qed.
+
+(* z is the kind of the last successful synchronising entry: a refresh followed by a time entry ends as sync *)
+Lemma ex_script :
+  let es := [ETime (OTaskDuration 91000000000 44); ERefresh (s_dev ex_session)] in
+  forallb wf_entry es = true /\ wf infoRefresh ex_session = true /\
+  snd (run_script false ex_session 0 es) = infoRefresh /\
+  snd (run_script false ex_session 0 (es ++ [EBad; ETime (OTaskKill zero_time)])) = infoSync /\
+  snd (run_script true ex_session 0 (EBad :: es)) = 0 /\
+  (exists body c' s', script_exchange false ex_receiver ex_session es = Ok (Some body, c', s') /\
+     hd 0 body = infoRefresh /\ s_jitter s' = 44 /\ s_sleep s' = 91000000000 /\ s_dev s' = s_dev ex_session /\ s_jitter ex_receiver = 0).
+Proof.
+  cbv zeta. split; [reflexivity|]. split; [vm_compute; reflexivity|].
+  split; [vm_compute; reflexivity|]. split; [vm_compute; reflexivity|]. split; [vm_compute; reflexivity|].
+  eexists _, _, _. split; [vm_compute; reflexivity|]. vm_compute. repeat split; reflexivity.
+Qed.
